@@ -14,6 +14,8 @@ Pieces
     triples of Model.C13.encode;
   * correspondence: multiset of triples, model (vm_compute) vs implementation;
     and the writer's metadata completion (rectify_metadata) vs Model.rectify;
+  * exit status of dclab-verify-dataset (cli/task_verify_dataset.py, called
+    in-process) vs Model.verify_exit; oracle: 0/1 without, 2/3 with violations;
   * property oracle (model independent): written files have no violations;
     each seeded corruption named in the property is reported; a file and its
     compressed / repacked copy get the same violations.
@@ -49,6 +51,8 @@ TRUSTED_BASE = [
     " and the canonicaliser cue -> integer triple",
     "harness/translators/check_inventory.py (ast based reading of check.py)",
     "HDF5/h5py store and return what they are given",
+    "exit status of dclab-verify-dataset: the number of alerts is taken from "
+    "the implementation (alerts are not modelled)",
     "not modelled: alert/info cues, message texts, tdms/DCOR formats, basins "
     "other than internal ones, defective-feature detection of the reader",
 ]
@@ -486,15 +490,30 @@ def run_impl(path):
             cues = ic.check(expand_section=False)
         ids = sorted(cue_id(c, info) for c in cues if c.level == "violation")
         msgs = sorted(c.msg for c in cues if c.level == "violation")
-        viol = check_dataset(path)[0]
+        viol, aler, _ = check_dataset(path)
         if list(viol) != msgs:
             ids.append([98, 0, 0])    # check_dataset disagrees with check()
+        info["nalert"] = len(aler)
     except BaseException as e:   # OldFormatNotSupportedError is one
         if isinstance(e, (KeyboardInterrupt, SystemExit)):
             raise
         ids = [[-1, 0, 0]]
         msgs = "%s: %s" % (e.__class__.__name__, str(e)[:200])
+        info["nalert"] = 0
+    info["exit"] = cli_exit_status(path)
     return ids, msgs, case, info
+
+
+def cli_exit_status(path):
+    """dclab-verify-dataset called in-process; its exit status."""
+    import pathlib
+    from dclab.cli import verify_dataset
+    try:
+        with _quiet():
+            verify_dataset(path_in=pathlib.Path(path))
+    except SystemExit as e:
+        return int(e.code)
+    return -2
 
 
 # --------------------------------------------------------------------------
@@ -605,6 +624,16 @@ def corruption_menu(h5, info):
 
 
 def apply_corruption(h5, kind, p, info, scratch):
+    """A corruption that is not applicable to the current state of the file
+    (replayed or shrunk cases: its object was removed by an earlier one) is
+    a no-op without expectation."""
+    try:
+        return _apply_corruption(h5, kind, p, info, scratch)
+    except (KeyError, IndexError):
+        return []
+
+
+def _apply_corruption(h5, kind, p, info, scratch):
     """Mutates the open file; returns the list of expected triples (computed
     from the state of the file *before* and the corruption only)."""
     import h5py
@@ -636,6 +665,8 @@ def apply_corruption(h5, kind, p, info, scratch):
         _replace(ev, "index", v)
         return [[3, 0, 0]]
     if kind == "index_add":
+        if "index" in ev:
+            return []
         nn = int(n) if n is not None else 3
         start = 1 if p["mode"] == "ok" else 0
         ev.create_dataset("index", data=np.arange(start, start + nn))
@@ -653,6 +684,9 @@ def apply_corruption(h5, kind, p, info, scratch):
         k = tab.index(("imaging", "roi size %s" % p["axis"]))
         return [("anycatkey", 6, k)]
     if kind == "img_add":
+        if p["f"] in ev or "imaging:roi size y" not in at \
+                or "imaging:roi size x" not in at:
+            return []
         nn = int(n) if n is not None else 3
         h = int(at["imaging:roi size y"]) + p["dh"]
         w = int(at["imaging:roi size x"]) + p["dw"]
@@ -730,19 +764,20 @@ def apply_corruption(h5, kind, p, info, scratch):
         return [("fl", [6, 23, TRACES.index(t)]) for t in ev["trace"]
                 if ev["trace"][t].shape[0] > 0]
     if kind == "extlink":
-        ext = os.path.join(scratch, "ext-%s.h5" % os.path.basename(
-            h5.filename))
+        # one target file per place; a second corruption of the same place
+        # (paired corruptions) is a no-op
+        grp, name, target = {
+            "events": (ev, "userdef9", "x"),
+            "logs": (h5.require_group("logs"), "extlog", "log"),
+            "root": (h5, "extra", "x")}[p["where"]]
+        if name in grp:
+            return []
+        ext = os.path.join(scratch, "ext-%s-%s.h5" % (
+            p["where"], os.path.basename(h5.filename)))
         with h5py.File(ext, "w") as e:
             e["x"] = np.arange(3, dtype=float)
             e.create_dataset("log", data=np.array([b"a line", b"another"]))
-        if p["where"] == "events":
-            if "userdef9" in ev:
-                return []
-            ev["userdef9"] = h5py.ExternalLink(ext, "x")
-        elif p["where"] == "logs":
-            h5.require_group("logs")["extlog"] = h5py.ExternalLink(ext, "log")
-        else:
-            h5["extra"] = h5py.ExternalLink(ext, "x")
+        grp[name] = h5py.ExternalLink(ext, target)
         return [[2, 0, 0]]
     if kind == "nonpos":
         at["%s:%s" % (p["sec"], p["key"])] = p["v"] / 64
@@ -772,6 +807,8 @@ def apply_corruption(h5, kind, p, info, scratch):
             _replace(ev, "temp", np.zeros(ev["temp"].shape[0]))
             zmd = p["zmd"]
         else:
+            if "temp" in ev:
+                return []
             nn = int(n) if n is not None else 3
             ev.create_dataset("temp", data=np.zeros(nn))
             zmd = True
@@ -943,7 +980,12 @@ def eval_case(args):
         ids, msgs, cabs, info = run_impl(path)
         rec = dict(kind="clean", case=dict(case, corruptions=[]),
                    abs=render(cabs), ids=ids, fails=[], nontrivial=True,
-                   path_kind=case["path"])
+                   path_kind=case["path"], exit=info["exit"],
+                   nalert=info["nalert"])
+        if not ids and info["exit"] not in (0, 1):
+            rec["fails"].append(dict(
+                desc="dclab-verify-dataset exits with %d for a file without "
+                     "violations" % info["exit"], finding=None, tag="exit"))
         if ids:
             kept = extra.get("kept")
             fid = None
@@ -998,8 +1040,15 @@ def eval_case(args):
                                                   ncorr=len(applied)),
                         abs=render(cabs2), ids=ids2, fails=[],
                         nontrivial=bool(ids2) and ids2 != [[-1, 0, 0]],
-                        path_kind=case["path"],
+                        path_kind=case["path"], exit=info2["exit"],
+                        nalert=info2["nalert"],
                         corr_kinds=[a[0] for a in applied])
+            if ids2 and ids2 != [[-1, 0, 0]] and info2["exit"] not in (2, 3):
+                crec["fails"].append(dict(
+                    desc="dclab-verify-dataset exits with %d although "
+                         "violations are reported: %s" % (info2["exit"],
+                                                          msgs2),
+                    finding=None, tag="exit"))
             if ids2 == [[-1, 0, 0]]:
                 crec["fails"].append(dict(
                     desc="the checker raises instead of reporting after "
@@ -1139,6 +1188,12 @@ def _object_of(c):
         return "feat:temp"
     if kind == "img_add":
         return "feat:" + p["f"]
+    if kind in ("ml_bad",):
+        return "feat:" + p["f"]
+    if kind == "ml_add":
+        return "feat:ml_score_vrf"
+    if kind == "extlink" and p["where"] == "events":
+        return "feat:userdef9"
     return kind
 
 
@@ -1173,8 +1228,13 @@ def independent(c, later):
         if a.startswith("feat:") and a[5:] in IMG_KINDS and \
                 (b.startswith("key:imaging:roi") or b == "sec:imaging"):
             return False
-        # fl?_max features gate the fluorescence checks
-        if a.startswith("key:fluorescence") and b.startswith("feat:fl"):
+        # fl?_max features gate the fluorescence checks; empty traces are
+        # not compared with samples per event
+        if a.startswith("key:fluorescence") and (
+                b.startswith("feat:fl") or b.startswith("trace:")):
+            return False
+        # any ml_score feature can make ml_class fail / a stored one is read
+        if a.startswith("feat:ml_score") and b.startswith("feat:ml_"):
             return False
         if c[0] == "temp_zero" and b == "key:setup:identifier":
             return False
@@ -1289,7 +1349,7 @@ def feed(run, records):
                 writers.append((r["case"], r["writer"]))
             else:
                 corr.append((r["case"], r["writer"]["abs"],
-                             r["writer"]["ids"]))
+                             r["writer"]["ids"], None, 0))
             continue
         run.record_case(r["case"], r["nontrivial"])
         run.count("path:" + r["path_kind"])
@@ -1299,15 +1359,19 @@ def feed(run, records):
             run.count("cue-category:%d" % i[0])
         if kind == "corrupt":
             run.count("ncorr=%d" % len(r["case"]["corruptions"]))
-        corr.append((r["case"], r["abs"], r["ids"]))
+        corr.append((r["case"], r["abs"], r["ids"], r["exit"], r["nalert"]))
+        run.count("exit-status:%d" % r["exit"])
         if "writer" in r:
             writers.append((r["case"], r["writer"]))
-    model = common.coq_map(run.scratch, "c13", HEADER, "run_flat",
-                           [c[1] for c in corr], shard=80)
-    for (case, _, ids), m in zip(corr, model):
+    model = common.coq_map(run.scratch, "c13", HEADER, "run_flat_x",
+                           ["(%s, %d)" % (c[1], c[4]) for c in corr], shard=80)
+    for (case, _, ids, ex, _), m in zip(corr, model):
         run.corr_checked += 1
-        if sorted(m) != sorted(ids):
-            run.mismatch(case, sorted(m), sorted(ids))
+        if sorted(m[1:]) != sorted(ids):
+            run.mismatch(case, sorted(m[1:]), sorted(ids))
+        elif ex is not None and m[0][0] != ex:
+            run.mismatch(dict(case, what="exit status"), m[0][0], ex,
+                         what="exit-status")
     if writers:
         wm = common.coq_map(run.scratch, "c13w", HEADER, "run_writer_flat",
                             [w[1]["abs"] for w in writers], shard=80)
